@@ -42,6 +42,8 @@ def mutants(prog):
         ("collate: one grid per sample", "deepali.data.collate", "collate_samples", "grid = tuple((grid for flow_field in flow_fields for grid in flow_field.grids()))", "grid = tuple((flow_field.grid() for flow_field in flow_fields))", "T19.collate"),
         ("collate: image grids of the first sample", "deepali.data.collate", "collate_samples", "grid = tuple((image.grid() for image in images))", "grid = tuple((images[0].grid() for image in images))", "T19.collate"),
         ("flow axes of cat: list form only", DF, "FlowFields._torch_function_axes", "if isinstance(args[0], (tuple, list)):", "if isinstance(args[0], list):", "T19.dispatch"),
+        ("image batch: result that is already a batch keeps its stale grids", DI, "ImageBatch._torch_function_result", "if isinstance(data, cls):\n            data._grid = grid\n        else:\n            data = cls(data, grid)", "if not isinstance(data, cls):\n            data = cls(data, grid)", "T19.dispatch"),
+        ("flow fields: result that is already a flow keeps its stale axes", DF, "FlowFields._torch_function_result", "data._axes = axes", "pass", "T19.dispatch"),
     ]
     for name, mod, fn, old, new, expect in specs:
         ov = source_sub(prog, mod, fn, old, new)
